@@ -26,7 +26,7 @@ def main():
     vlib.build()
     rep = vlib.Report("C15")
     cov = {"states": 0, "transitions": 0, "traces_validated_against_impl": 0, "samples": [], "tlc_runs": []}
-    cfgs = ["A4", "D4", "C4"] if tier == "quick" else ["A5", "D5", "C5", "B5"]
+    cfgs = ["A4", "D4", "C4", "E5c"] if tier == "quick" else ["A5", "D5", "C5", "B5", "E6c"]
     per = max(2, vlib.NCPU // len(cfgs))
     with ThreadPoolExecutor(max_workers=len(cfgs)) as ex:
         runs = list(ex.map(lambda c: vlib.tlc_check("Lexer.tla", "MC_Lexer_%s.cfg" % c, workers=per, timeout=7200), cfgs))
